@@ -55,6 +55,52 @@ pub fn classify_log_offset(file: &[u8], off: usize) -> &'static str {
     "past"
 }
 
+/// Header damage that makes a log look like it ends in an UNFINISHED record (what a torn final
+/// write leaves behind - raindb cannot tell the two apart because length and type are outside
+/// the checksum) gets a field name of its own: a length that makes the record run past the end
+/// of the file (`len_pasteof`), and the type of the LAST fragment of the file changed from Full
+/// to First or from Last to Middle (`type_unfinished`). Every other header damage keeps the
+/// plain field name.
+pub fn refine_log_field(file: &[u8], off: usize, field: &'static str, new: u8) -> &'static str {
+    const BLOCK: usize = 32768;
+    const HDR: usize = 7;
+    if field != "len" && field != "type" {
+        return field;
+    }
+    // find the fragment whose header holds `off`
+    let mut pos = 0usize;
+    while pos < file.len() {
+        let block_off = pos % BLOCK;
+        if BLOCK - block_off < HDR {
+            pos += BLOCK - block_off;
+            continue;
+        }
+        if pos + HDR > file.len() {
+            return field;
+        }
+        let len = u16::from_le_bytes([file[pos + 4], file[pos + 5]]) as usize;
+        if off < pos + HDR {
+            if field == "len" {
+                let mut lb = [file[pos + 4], file[pos + 5]];
+                lb[off - (pos + 4)] = new;
+                let newlen = u16::from_le_bytes(lb) as usize;
+                return if pos + HDR + newlen > file.len() { "len_pasteof" } else { "len" };
+            }
+            let end = pos + HDR + len;
+            let rest_is_trailer = end >= file.len()
+                || (BLOCK - end % BLOCK < HDR && end + (BLOCK - end % BLOCK) >= file.len());
+            let old = file[pos + 6];
+            return if rest_is_trailer && ((old == 0 && new == 1) || (old == 3 && new == 2)) {
+                "type_unfinished"
+            } else {
+                "type"
+            };
+        }
+        pos += HDR + len;
+    }
+    field
+}
+
 #[derive(Clone, Debug)]
 pub struct Mutation {
     pub field: &'static str,
@@ -212,9 +258,15 @@ pub fn run_corrupt(
         let bytes = disk.inodes.get(inode).cloned().unwrap_or_default();
         for off in 0..len {
             for mode in 0..3u8 {
+                let byte: u8 = rng.gen();
+                let new = match mode {
+                    0 => bytes[off] ^ (1 << (byte % 8)),
+                    1 => 0,
+                    _ => byte,
+                };
                 muts.push(Mutation {
                     field: if kind == "wal" || kind == "manifest" {
-                        classify_log_offset(&bytes, off)
+                        refine_log_field(&bytes, off, classify_log_offset(&bytes, off), new)
                     } else {
                         "any"
                     },
@@ -223,7 +275,7 @@ pub fn run_corrupt(
                     n,
                     off,
                     mode,
-                    byte: rng.gen(),
+                    byte,
                 });
             }
         }
